@@ -149,3 +149,25 @@ def mut_first_arg(g, n):
         return False
     l = t["args"][0]["p"]["l"]
     return g.inst(n).body["locals"][l]["ty"].startswith("&mut ")
+
+
+def ctor_value(ctx, e):
+    """value a struct field had when its (known) aggregate was built: ('field', ('agg', adt, var, fields), name) -> fields[i]"""
+    if isinstance(e, tuple) and len(e) == 3 and e[0] == "field" and isinstance(e[1], tuple) and e[1] and e[1][0] == "agg":
+        a = ctx.facts.adts.get(e[1][1])
+        if a:
+            names = [f["name"] for f in a["variants"][0]["fields"]]
+            if e[2] in names and names.index(e[2]) < len(e[1][3]):
+                return e[1][3][names.index(e[2])]
+    return None
+
+
+def field_assigned(g, live, name):
+    """is a field called `name` assigned (through a pointer) anywhere in the live part of the graph?"""
+    for n in live:
+        for s in g.stmts(n):
+            if s["k"] == "assign" and s["p"]["proj"]:
+                last = [el for el in s["p"]["proj"] if isinstance(el, dict) and "f" in el]
+                if last and last[-1].get("n") == name:
+                    return True
+    return False
